@@ -39,12 +39,20 @@ WORDS = ["alpha", "bravo", "charlie", "delta", "echo", "foxtrot"]
 def document(draw, i):
     hostile = draw(st.booleans())
     name = lambda: draw(st.sampled_from(TRAVERSAL)) if hostile and draw(st.booleans()) else draw(st.sampled_from(WORDS))  # noqa: E731
-    n_s = draw(st.integers(1, 3))
-    n_o = draw(st.integers(1, 3))
+    # boundary documents matter for what a regeneration leaves behind: no schemas at all, no operations at all, models without
+    # enums, enums without models
+    n_s = draw(st.sampled_from([0, 0, 1, 1, 2, 3]))
+    n_o = draw(st.sampled_from([0, 1, 1, 2, 3]))
+    shape = draw(st.sampled_from(["models_with_enums", "models_with_enums", "models_only", "enums_only"]))
     schemas = {}
     for k in range(n_s):
         nm = draw(st.sampled_from(WORDS)).capitalize() + str(draw(st.integers(0, 2)))
-        props = {name(): {"type": "string"}, "kind": {"type": "string", "enum": [name(), "plainvalue"]}}
+        if shape == "enums_only":
+            schemas[nm] = {"type": "string", "enum": [name(), "plainvalue"]}
+            continue
+        props = {name(): {"type": "string"}}
+        if shape == "models_with_enums":
+            props["kind"] = {"type": "string", "enum": [name(), "plainvalue"]}
         sch = {"type": "object", "properties": props}
         if hostile and draw(st.booleans()):
             sch["title"] = draw(st.sampled_from(TRAVERSAL))
